@@ -53,6 +53,33 @@ struct jls_rd_s {
 } while (0)
 
 
+// End a list of same-tag chunks (user data, source and signal definitions) at the last chunk that
+// can still be read: after a truncation its item_next may name an offset that repair writes to.
+static bool item_list_member(uint8_t list_tag, uint8_t tag) {
+    if ((list_tag == JLS_TAG_SIGNAL_DEF) && (tag & JLS_TRACK_TAG_FLAG)) {
+        // the signal list also holds the definition and the head chunk of each track
+        return ((tag & 0x07) == JLS_TRACK_CHUNK_DEF) || ((tag & 0x07) == JLS_TRACK_CHUNK_HEAD);
+    }
+    return (tag == list_tag);
+}
+
+static int32_t repair_item_list(struct jls_core_s * core, struct jls_core_chunk_s * head, uint8_t tag) {
+    struct jls_core_chunk_s chunk = *head;
+    while (chunk.offset && chunk.hdr.item_next) {
+        if (jls_raw_chunk_seek(core->raw, (int64_t) chunk.hdr.item_next) || jls_core_rd_chunk(core)
+                || !item_list_member(tag, core->chunk_cur.hdr.tag)) {
+            chunk.hdr.item_next = 0;
+            ROE(jls_core_update_chunk_header(core, &chunk));
+            if (chunk.offset == head->offset) {
+                head->hdr.item_next = 0;
+            }
+            break;
+        }
+        chunk = core->chunk_cur;
+    }
+    return 0;
+}
+
 int32_t jls_rd_open(struct jls_rd_s ** instance, const char * path) {
     int32_t rc = 0;
     if (!instance) {
@@ -121,6 +148,10 @@ int32_t jls_rd_open(struct jls_rd_s ** instance, const char * path) {
         // rewrite last full chunk to update payload_prev_length
         GOE(jls_raw_chunk_seek(core->raw, pos));
         GOE(jls_raw_wr(core->raw, &core->chunk_cur.hdr, core->buf->cur));
+
+        GOE(repair_item_list(core, &core->user_data_head, JLS_TAG_USER_DATA));
+        GOE(repair_item_list(core, &core->source_head, JLS_TAG_SOURCE_DEF));
+        GOE(repair_item_list(core, &core->signal_head, JLS_TAG_SIGNAL_DEF));
 
         for (uint16_t signal_idx = 0; signal_idx < JLS_SIGNAL_COUNT; ++signal_idx) {
             struct jls_core_signal_s * signal_info = &core->signal_info[signal_idx];
